@@ -342,6 +342,9 @@ func Pick[T any](s *Sim, tag string, vals ...T) T { return vals[s.Choose(tag, le
 
 // Event appends a driver-side line to the event log (hashed).
 func (s *Sim) Event(format string, a ...interface{}) {
+	if s.freeRun.Load() {
+		return // teardown: what released goroutines do on their way out is decided by the Go runtime, not by the run
+	}
 	s.mu.Lock()
 	s.dseq++
 	s.lines = append(s.lines, logLine{step: s.step, seq: s.dseq, text: fmt.Sprintf(format, a...)})
@@ -352,6 +355,9 @@ func (s *Sim) Event(format string, a ...interface{}) {
 // order and the merged log is ordered by (step, source, sequence), so it does
 // not depend on how goroutines of one macro-step were interleaved.
 func (s *Sim) TaskLog(src string, format string, a ...interface{}) {
+	if s.freeRun.Load() {
+		return
+	}
 	s.mu.Lock()
 	s.dseq++
 	s.lines = append(s.lines, logLine{step: s.step, src: src, seq: s.dseq, text: fmt.Sprintf(format, a...)})
@@ -359,6 +365,9 @@ func (s *Sim) TaskLog(src string, format string, a ...interface{}) {
 }
 
 func (s *Sim) Fault(kind string) {
+	if s.freeRun.Load() {
+		return
+	}
 	s.mu.Lock()
 	s.faults[kind]++
 	s.nontriv = true
@@ -366,12 +375,18 @@ func (s *Sim) Fault(kind string) {
 }
 
 func (s *Sim) Probe(name string) {
+	if s.freeRun.Load() {
+		return
+	}
 	s.mu.Lock()
 	s.probes[name]++
 	s.mu.Unlock()
 }
 
 func (s *Sim) ProbeN(name string, n int) {
+	if s.freeRun.Load() {
+		return
+	}
 	s.mu.Lock()
 	s.probes[name] += n
 	s.mu.Unlock()
